@@ -1,1 +1,226 @@
-fn main(){}
+//! vdigest: parse every case of a corpus file and print one 64-bit result hash per
+//! (case, alignment). Dependency-free so that it can be built in every flag / feature
+//! variant of httparse (C13). With `--cfg httparse_verif` it also accepts `--cell N`
+//! (force the cached runtime-detection cell, hook H2) and `--race` (16 threads released
+//! together into their first parse).
+//!
+//! corpus format: repeated [entry u8][cfg u8][cap u16 le][len u32 le][len bytes]
+//! output: 8 bytes (le) per (case, alignment in {0, 1, 19}) on stdout
+
+use httparse::{Header, ParserConfig, Request, Response, Status, EMPTY_HEADER};
+use std::io::{Read, Write};
+use std::mem::MaybeUninit;
+
+fn make_config(bits: u8) -> ParserConfig {
+    let mut c = ParserConfig::default();
+    c.allow_spaces_after_header_name_in_responses(bits & 1 != 0);
+    c.allow_obsolete_multiline_headers_in_responses(bits & 2 != 0);
+    c.allow_multiple_spaces_in_request_line_delimiters(bits & 4 != 0);
+    c.allow_multiple_spaces_in_response_status_delimiters(bits & 8 != 0);
+    c.allow_space_before_first_header_name(bits & 16 != 0);
+    c.ignore_invalid_headers_in_responses(bits & 32 != 0);
+    c.ignore_invalid_headers_in_requests(bits & 64 != 0);
+    c
+}
+
+struct H(u64);
+impl H {
+    fn b(&mut self, x: &[u8]) {
+        for &c in x {
+            self.0 ^= c as u64;
+            self.0 = self.0.wrapping_mul(0x100000001b3);
+        }
+    }
+    fn u(&mut self, x: u64) {
+        self.b(&x.to_le_bytes());
+    }
+    fn slice(&mut self, buf: &[u8], s: &[u8]) {
+        self.u(s.len() as u64);
+        if !s.is_empty() {
+            // offset into the buffer (usize::MAX if outside)
+            let off = (s.as_ptr() as usize).wrapping_sub(buf.as_ptr() as usize);
+            self.u(if off <= buf.len() { off as u64 } else { u64::MAX });
+            self.b(s);
+        }
+    }
+    fn status(&mut self, r: &Result<Status<usize>, httparse::Error>) {
+        match r {
+            Ok(Status::Complete(n)) => {
+                self.u(1);
+                self.u(*n as u64);
+            }
+            Ok(Status::Partial) => self.u(2),
+            Err(e) => {
+                self.u(3);
+                self.b(format!("{:?}", e).as_bytes());
+            }
+        }
+    }
+    fn headers(&mut self, buf: &[u8], hs: &[Header<'_>]) {
+        self.u(hs.len() as u64);
+        for h in hs {
+            self.slice(buf, h.name.as_bytes());
+            self.slice(buf, h.value);
+        }
+    }
+}
+
+fn digest(entry: u8, cfg: u8, cap: usize, buf: &[u8]) -> u64 {
+    let mut h = H(0xcbf29ce484222325);
+    let config = make_config(cfg);
+    let mut arr: Vec<Header<'_>> = vec![EMPTY_HEADER; cap];
+    let mut uarr: Vec<MaybeUninit<Header<'_>>> = vec![MaybeUninit::uninit(); cap];
+    let mut empty: [Header<'_>; 0] = [];
+    match entry {
+        0..=3 => {
+            let uninit = entry >= 2;
+            let mut req = if uninit { Request::new(&mut empty[..]) } else { Request::new(&mut arr[..]) };
+            let r = match entry {
+                0 => req.parse(buf),
+                1 => config.parse_request(&mut req, buf),
+                2 => req.parse_with_uninit_headers(buf, &mut uarr[..]),
+                _ => config.parse_request_with_uninit_headers(&mut req, buf, &mut uarr[..]),
+            };
+            h.status(&r);
+            h.u(req.method.is_some() as u64);
+            h.slice(buf, req.method.unwrap_or("").as_bytes());
+            h.u(req.path.is_some() as u64);
+            h.slice(buf, req.path.unwrap_or("").as_bytes());
+            h.u(req.version.map(|v| v as u64 + 1).unwrap_or(0));
+            if matches!(r, Ok(Status::Complete(_))) {
+                h.headers(buf, &*req.headers);
+            }
+        }
+        4..=7 => {
+            let uninit = entry >= 6;
+            let mut resp = if uninit { Response::new(&mut empty[..]) } else { Response::new(&mut arr[..]) };
+            let r = match entry {
+                4 => resp.parse(buf),
+                5 => config.parse_response(&mut resp, buf),
+                6 => ParserConfig::default().parse_response_with_uninit_headers(&mut resp, buf, &mut uarr[..]),
+                _ => config.parse_response_with_uninit_headers(&mut resp, buf, &mut uarr[..]),
+            };
+            h.status(&r);
+            h.u(resp.version.map(|v| v as u64 + 1).unwrap_or(0));
+            h.u(resp.code.map(|v| v as u64 + 1).unwrap_or(0));
+            h.u(resp.reason.is_some() as u64);
+            h.slice(buf, resp.reason.unwrap_or("").as_bytes());
+            if matches!(r, Ok(Status::Complete(_))) {
+                h.headers(buf, &*resp.headers);
+            }
+        }
+        8 => match httparse::parse_headers(buf, &mut arr[..]) {
+            Ok(Status::Complete((n, hs))) => {
+                h.u(1);
+                h.u(n as u64);
+                h.headers(buf, hs);
+            }
+            Ok(Status::Partial) => h.u(2),
+            Err(e) => {
+                h.u(3);
+                h.b(format!("{:?}", e).as_bytes());
+            }
+        },
+        _ => match httparse::parse_chunk_size(buf) {
+            Ok(Status::Complete((n, sz))) => {
+                h.u(1);
+                h.u(n as u64);
+                h.u(sz);
+            }
+            Ok(Status::Partial) => h.u(2),
+            Err(_) => h.u(3),
+        },
+    }
+    h.0
+}
+
+#[cfg(httparse_verif)]
+fn set_cell(v: u8) {
+    httparse::_verif::simd::set_runtime_feature(v);
+}
+#[cfg(not(httparse_verif))]
+fn set_cell(_v: u8) {
+    eprintln!("vdigest: --cell needs a build with --cfg httparse_verif");
+    std::process::exit(2);
+}
+
+const ALIGNS: [usize; 3] = [0, 1, 19];
+
+fn main() {
+    let args: Vec<String> = std::env::args().collect();
+    let mut path = None;
+    let mut race = false;
+    let mut repeat = 1usize;
+    let mut i = 1;
+    while i < args.len() {
+        match args[i].as_str() {
+            "--cell" => {
+                i += 1;
+                set_cell(args[i].parse().unwrap());
+            }
+            "--race" => race = true,
+            "--repeat" => {
+                i += 1;
+                repeat = args[i].parse().unwrap();
+            }
+            p => path = Some(p.to_string()),
+        }
+        i += 1;
+    }
+    let mut data = Vec::new();
+    std::fs::File::open(path.expect("corpus path")).unwrap().read_to_end(&mut data).unwrap();
+    // index the cases
+    let mut cases: Vec<(u8, u8, usize, std::ops::Range<usize>)> = vec![];
+    let mut p = 0;
+    while p + 8 <= data.len() {
+        let entry = data[p];
+        let cfg = data[p + 1];
+        let cap = u16::from_le_bytes([data[p + 2], data[p + 3]]) as usize;
+        let len = u32::from_le_bytes([data[p + 4], data[p + 5], data[p + 6], data[p + 7]]) as usize;
+        cases.push((entry, cfg, cap, p + 8..p + 8 + len));
+        p += 8 + len;
+    }
+    let out = std::io::stdout();
+    let mut out = std::io::BufWriter::new(out.lock());
+    if race {
+        // 16 threads released together into their *first* parse; each prints the digest of
+        // case (thread index mod n); order fixed by joining in order
+        let barrier = std::sync::Arc::new(std::sync::Barrier::new(16));
+        let data = std::sync::Arc::new(data);
+        let cases = std::sync::Arc::new(cases);
+        let hs: Vec<_> = (0..16)
+            .map(|t| {
+                let (b, d, c) = (barrier.clone(), data.clone(), cases.clone());
+                std::thread::spawn(move || {
+                    let (entry, cfg, cap, r) = c[t % c.len()].clone();
+                    let buf = d[r].to_vec();
+                    b.wait();
+                    digest(entry, cfg, cap, &buf)
+                })
+            })
+            .collect();
+        for h in hs {
+            out.write_all(&h.join().unwrap().to_le_bytes()).unwrap();
+        }
+        return;
+    }
+    let mut scratch: Vec<u8> = vec![0; 64];
+    for _ in 0..repeat {
+        for (entry, cfg, cap, r) in &cases {
+            let src = &data[r.clone()];
+            for a in ALIGNS {
+                if scratch.len() < src.len() + 128 {
+                    scratch.resize(src.len() * 2 + 128, 0);
+                }
+                // start at a 64-aligned address + a
+                let base = scratch.as_ptr() as usize;
+                let off = ((base + 63) & !63) - base + a;
+                scratch[off..off + src.len()].copy_from_slice(src);
+                let d = digest(*entry, *cfg, *cap, &scratch[off..off + src.len()]);
+                if repeat == 1 {
+                    out.write_all(&d.to_le_bytes()).unwrap();
+                }
+            }
+        }
+    }
+}
